@@ -10,10 +10,10 @@ BASE = dict(MaxLen=3, MaxT=4, Small=set(), MaxLenS=2, MaxTS=3, Ds={0, 1, 2}, Abs
 WINDOWS = ["take_with_time", "take_until_with_time", "take_until_abs", "skip_with_time", "skip_until_with_time", "skip_until_abs",
            "take_last_with_time", "skip_last_with_time"]
 
-QUICK = [(WINDOWS + ["timeout", "timeout_abs"], dict(MaxT=3, Hz=6, DispOps={"take_with_time", "timeout"})),
+QUICK = [(WINDOWS + ["timeout", "timeout_abs"], dict(MaxT=3, Hz=6, DispOps={"timeout"})),
          (["timeout_other", "timeout_abs_other", "timeout_with_mapper", "timeout_with_mapper_other"],
-          dict(MaxLen=2, MaxT=2, Terms={"C", "E"}, SpecTs={0, 1}, Small={"timeout_with_mapper", "timeout_with_mapper_other"},
-               MaxLenS=1, MaxTS=1, Hz=5))]
+          dict(MaxLen=2, MaxT=2, Terms={"C", "E"}, SpecTs={0, 1}, MaxLenS=1, MaxTS=1, Hz=5,
+               Small={"timeout_with_mapper", "timeout_with_mapper_other", "timeout_abs_other"}))]
 
 THOROUGH = [(WINDOWS, dict(MaxLen=4, MaxT=6, Ds={0, 1, 2, 3}, AbsLo=2, Hz=10)),
             (["timeout", "timeout_abs", "timeout_other", "timeout_abs_other"], dict(MaxLen=3, MaxT=4, AuxLen=2, Hz=8)),
@@ -21,7 +21,7 @@ THOROUGH = [(WINDOWS, dict(MaxLen=4, MaxT=6, Ds={0, 1, 2, 3}, AbsLo=2, Hz=10)),
             (WINDOWS + ["timeout", "timeout_other", "timeout_with_mapper"],
              dict(MaxLen=2, MaxT=3, Hz=6, DispLen=2, DispOps=set(WINDOWS) | {"timeout", "timeout_other", "timeout_with_mapper"}))]
 
-SIM = (WINDOWS + ["timeout", "timeout_abs"], dict(MaxLen=5, MaxT=8, Ds={0, 1, 2, 3, 4}, AbsLo=3, Hz=14))
+SIM = (WINDOWS + ["timeout", "timeout_abs"], dict(MaxLen=5, MaxT=7, Ds={0, 1, 2, 3, 5}, AbsLo=2, Hz=13))
 
 
 def run(tier):
